@@ -2,7 +2,7 @@
   Theorems/TracePreds.lean — EVERY MODEL RUN SATISFIES THE SPECIFICATION PREDICATES that the
   correspondence driver evaluates on real traces (`predFut`, `Model/Monitor.lean`).
 
-  Result of the exhaustive search done before proving (all `ObsRun`s of 15 graphs with ≤ 3 nodes,
+  Result of the exhaustive search done before proving (all `ObsRun`s of 15 graphs_Q with ≤ 3 nodes,
   240 configurations each, `q` at every quiescent non-returned state, every quiet interrupt point):
   exactly ONE predicate is false of some model run,
 
@@ -149,26 +149,26 @@ theorem preds_hold_C09 {x : MonCtx} (hx : GoodCtx x) {evs : List Ev} {s : PState
   handed out in this order and their closures are started in the order 1, 2.  Everything else is a
   clean complete run; it returns `processed = [0, 2, 1, 3]` while the starts were `[0, 1, 2, 3]`. -/
 
-def cxSchedule_Q_Q : List OA :=
+def cxSchedule_Q_Q_Q : List OA :=
   ([.schedPoll, .invoke 0, .finish 0 true, .queuerRecv, .schedPoll, .schedPoll, .invoke 1, .invoke 2,
     .finish 2 true, .finish 1 true, .queuerRecv, .queuerRecv, .schedPoll, .invoke 3, .finish 3 true,
     .queuerRecv, .schedPoll, .schedEnd, .queuerEnd, .ret] : List Action).map OA.act
 
-def cxEvents_Q_Q : List Ev :=
+def cxEvents_Q_Q_Q : List Ev :=
   [.handout 0, .invoke 0, .fin 0 true, .handout 2, .handout 1, .invoke 1, .invoke 2, .fin 2 true,
    .fin 1 true, .handout 3, .invoke 3, .fin 3 true, .retOutcome true [0, 2, 1, 3] [] [] "cont"]
 
 set_option maxRecDepth 100000 in
-theorem cx_obsRun_Q : ∃ s, ObsRun (xDiamond exCfg_F) (init exCfg_F) cxEvents_Q_Q s :=
-  obsRun_of_obsEvents' (l := cxSchedule_Q_Q) (by decide)
+theorem cx_obsRun_Q : ∃ s, ObsRun (xDiamond exCfg_F) (init exCfg_F) cxEvents_Q_Q_Q s :=
+  obsRun_of_obsEvents' (l := cxSchedule_Q_Q_Q) (by decide)
 
 set_option maxRecDepth 100000 in
 /-- exactly one note fails, the C09 "processed=started" one -/
-theorem cx_fails_Q : ((predRun (xDiamond exCfg_F) {} cxEvents_Q_Q).2.filter (fun n => !n.ok)).map Note.property
+theorem cx_fails_Q : ((predRun (xDiamond exCfg_F) {} cxEvents_Q_Q_Q).2.filter (fun n => !n.ok)).map Note.property
     = ["C09"] := by decide
 
 /-- the run does not start the closures in hand-out order -/
-example : ¬ RunOk cxEvents_Q_Q := fun h => absurd h.invokeFifo (by decide)
+example : ¬ RunOk cxEvents_Q_Q_Q := fun h => absurd h.invokeFifo (by decide)
 
 theorem preds_hold_original_false :
     ¬ (∀ (x : MonCtx), GoodCtx x → ∀ (evs : List Ev) (s : PState), ObsRun x (init x.c) evs s →
@@ -176,7 +176,7 @@ theorem preds_hold_original_false :
   intro h
   obtain ⟨s, hs⟩ := cx_obsRun_Q
   have hall := h _ (xDiamond_good exCfg_F rfl rfl (by intro h; cases h)) _ s hs
-  have hnil : (predRun (xDiamond exCfg_F) {} cxEvents_Q_Q).2.filter (fun n => !n.ok) = [] := by
+  have hnil : (predRun (xDiamond exCfg_F) {} cxEvents_Q_Q_Q).2.filter (fun n => !n.ok) = [] := by
     rw [List.filter_eq_nil_iff]
     intro n hn
     simp [hall n hn]
